@@ -847,7 +847,7 @@ class Interp:
         if k == "unreachable":
             return []
         if k == "drop":
-            return [("goto", st, t["target"])]
+            return self.do_drop(st, fr, t)
         if k == "assert":
             c = self.eval_operand(st, fr, t["cond"])
             cond = c[1] if c[0] == "bool" else ("opaque", "assert")
@@ -878,6 +878,30 @@ class Interp:
                 out.append(("goto", s2, t["target"]))
             return out
         raise Undecided("terminator %s" % k)
+
+    def do_drop(self, st, fr, t):
+        """a value of a workspace type with its own Drop impl goes out of scope: run Drop::drop
+        (it may write through references the value holds, e.g. a backend borrowing the owner's state)."""
+        ty = fr.crate.types[self.place_ty(fr, t["place"])]
+        if ty["k"] == "adt" and ty.get("local"):
+            cr = fr.crate
+            for im in cr.impls:
+                if im.get("trait") == "core::ops::Drop" and im.get("self_adt") == ty["adt"]:
+                    body = None
+                    for b in cr.bodies_of_impl(im):
+                        if b["name"] == "drop":
+                            body = b
+                    if body is None:
+                        break
+                    try:
+                        tg, _ = self.place_target(st, fr, t["place"])
+                        if tg.cell not in st.heap:
+                            break          # never initialised on this path (drop flag false)
+                    except Undecided:
+                        break
+                    res = self.inline(st, cr, body, [vref(tg)], fr.depth + 1)
+                    return [("goto", s2, t["target"]) for s2, _ in res]
+        return [("goto", st, t["target"])]
 
     def _fork_stmt(self, st, fr, bb, blk, stmt, tg, v):
         """finish block `bb` twice, once per branch of a conditional value."""
